@@ -50,6 +50,9 @@ type Conn struct {
 	FailWrite int // the k-th Write (1-based) on this end fails without sending anything; 0 = never
 	nWrites   int
 	ReadBytes int
+	// deadlines are recorded, not enforced (the model has no clock): a harness can assert that none is left armed
+	ReadDeadline  time.Time
+	WriteDeadline time.Time
 }
 
 // Pipe returns the two ends of a duplex in-memory connection.
@@ -207,11 +210,14 @@ func (c *Conn) PendingMsgs() int {
 	return len(c.r.msgs)
 }
 
-func (c *Conn) LocalAddr() net.Addr                { return Addr{} }
-func (c *Conn) RemoteAddr() net.Addr               { return Addr{} }
-func (c *Conn) SetDeadline(t time.Time) error      { return nil }
-func (c *Conn) SetReadDeadline(t time.Time) error  { return nil }
-func (c *Conn) SetWriteDeadline(t time.Time) error { return nil }
+func (c *Conn) LocalAddr() net.Addr  { return Addr{} }
+func (c *Conn) RemoteAddr() net.Addr { return Addr{} }
+func (c *Conn) SetDeadline(t time.Time) error {
+	c.ReadDeadline, c.WriteDeadline = t, t
+	return nil
+}
+func (c *Conn) SetReadDeadline(t time.Time) error  { c.ReadDeadline = t; return nil }
+func (c *Conn) SetWriteDeadline(t time.Time) error { c.WriteDeadline = t; return nil }
 
 // LenConn is a length-only connection for the "all lengths" harnesses: it tracks how many bytes are available,
 // not what they are. Reads return a symbolic count (no forking); at most MaxShort short reads.
